@@ -5,8 +5,12 @@ import WireP.Lemmas.FrontProofs
 Model: `WireV.checkField`, `WireV.allFields`, `WireV.structArgs`, `WireV.structProviderArgs`,
 `WireV.fieldsOfArgs` (parse.go: checkField, allFields, processStructProvider, processFieldsOf).
 A field argument is either a string literal denoting `s` (`.str s`) or anything else (`.other`);
-the struct's fields are given in declaration order with their `wire:"-"` tag (`prevented`).
-A blank field (name exactly `"_"`) is never selected: neither by `"*"` nor by naming it. -/
+the struct's fields are given in declaration order with their `wire:"-"` tag (`prevented`) and
+whether they are `hidden` (unexported and declared by another package than the struct type, as in
+`type S other.T`: nothing outside `other` can set such a field).
+A blank field (name exactly `"_"`) is never selected: neither by `"*"` nor by naming it.
+`wire.Struct` (`structField`, `structArgs`) refuses a hidden field, named or reached by `"*"`;
+`wire.FieldsOf` (`fieldsOfArgs`) reads fields and is not concerned. -/
 namespace WireP.C12
 open WireV
 
@@ -45,23 +49,62 @@ theorem checkField_nonliteral (fs : List FieldDecl) : checkField fs .other = .er
 
 /-- matching is case sensitive: `"Foo"` selects the second field, `"FOO"` is not a field -/
 theorem checkField_case_sensitive :
-    checkField [⟨"foo", 0, false⟩, ⟨"Foo", 1, false⟩] (.str "Foo") = .ok ⟨"Foo", 1, false⟩ ∧
-    checkField [⟨"foo", 0, false⟩, ⟨"Foo", 1, false⟩] (.str "FOO") = .error (.notField "FOO") := by
+    checkField [⟨"foo", 0, false, false⟩, ⟨"Foo", 1, false, false⟩] (.str "Foo") = .ok ⟨"Foo", 1, false, false⟩ ∧
+    checkField [⟨"foo", 0, false, false⟩, ⟨"Foo", 1, false, false⟩] (.str "FOO") = .error (.notField "FOO") := by
   decide
 
 /-! ## `wire.Struct` -/
 
-/-- `"*"`: all fields that are neither tagged `wire:"-"` nor blank, in declaration order -/
-theorem structArgs_star (fs : List FieldDecl) :
-    structArgs fs [.str "*"] = .ok (fs.filter (fun f => !f.prevented && f.name != "_")) :=
-  WireP.FrontProofs.structArgs_star fs
+/-- a named field of `wire.Struct` is accepted iff `checkField` accepts it and it is not hidden -/
+theorem structField_ok_iff {fs : List FieldDecl} {a : FieldArg} {f : FieldDecl} :
+    structField fs a = .ok f ↔ checkField fs a = .ok f ∧ f.hidden = false :=
+  WireP.FrontProofs.structField_ok_iff
 
-/-- `"*"` selects only declared fields that are not prevented and not blank -/
+/-- the errors of `checkField` come first (in particular `prevented` is reported before `hidden`) -/
+theorem structField_error_passes {fs : List FieldDecl} {a : FieldArg} {e : FieldErr} :
+    checkField fs a = .error e → structField fs a = .error e :=
+  WireP.FrontProofs.structField_error_passes
+
+theorem structField_hidden {fs : List FieldDecl} {s : String} {f : FieldDecl} :
+    (fs.map (·.name)).Nodup → f ∈ fs → f.name = s → s ≠ "_" → f.prevented = false → f.hidden = true →
+      structField fs (.str s) = .error (.hidden s) :=
+  WireP.FrontProofs.structField_hidden
+
+theorem structField_found {fs : List FieldDecl} {f : FieldDecl} :
+    (fs.map (·.name)).Nodup → f ∈ fs → f.name ≠ "_" → f.prevented = false → f.hidden = false →
+      structField fs (.str f.name) = .ok f :=
+  WireP.FrontProofs.structField_found
+
+/-- `"*"` succeeds exactly when none of the fields it stands for is hidden, and then selects all fields
+that are neither tagged `wire:"-"` nor blank, in declaration order -/
+theorem structArgs_star {fs sel : List FieldDecl} :
+    structArgs fs [.str "*"] = .ok sel ↔
+      sel = fs.filter (fun f => !f.prevented && f.name != "_") ∧ ∀ f ∈ sel, f.hidden = false :=
+  WireP.FrontProofs.structArgs_star
+
+/-- `"*"` fails as soon as one field it stands for cannot be set -/
+theorem structArgs_star_hidden {fs : List FieldDecl} :
+    (∃ f ∈ fs, f.prevented = false ∧ f.name ≠ "_" ∧ f.hidden = true) →
+      ∃ n, structArgs fs [.str "*"] = .error (.hidden n) :=
+  WireP.FrontProofs.structArgs_star_hidden
+
+/-- every failure of `"*"`: the error names the FIRST field, in declaration order, that is not prevented,
+not blank and hidden -/
+theorem structArgs_star_error {fs : List FieldDecl} {e : FieldErr} :
+    structArgs fs [.str "*"] = .error e ↔
+      ∃ pre f post, fs = pre ++ f :: post ∧
+        (f.prevented = false ∧ f.name ≠ "_" ∧ f.hidden = true) ∧
+        (∀ g ∈ pre, g.prevented = false → g.name ≠ "_" → g.hidden = false) ∧
+        e = .hidden f.name :=
+  WireP.FrontProofs.structArgs_star_error
+
+/-- `"*"` selects only declared fields that are not prevented, not blank and not hidden -/
 theorem structArgs_star_sound {fs sel : List FieldDecl} :
-    structArgs fs [.str "*"] = .ok sel → ∀ f ∈ sel, f ∈ fs ∧ f.prevented = false ∧ f.name ≠ "_" :=
+    structArgs fs [.str "*"] = .ok sel →
+      ∀ f ∈ sel, f ∈ fs ∧ f.prevented = false ∧ f.name ≠ "_" ∧ f.hidden = false :=
   WireP.FrontProofs.structArgs_star_sound
 
-/-- `"*"` selects every declared field that is not prevented and not blank -/
+/-- when `"*"` is accepted, it selects every declared field that is not prevented and not blank -/
 theorem structArgs_star_complete {fs sel : List FieldDecl} :
     structArgs fs [.str "*"] = .ok sel → ∀ f ∈ fs, f.prevented = false → f.name ≠ "_" → f ∈ sel :=
   WireP.FrontProofs.structArgs_star_complete
@@ -71,17 +114,37 @@ theorem structArgs_star_order {fs sel : List FieldDecl} :
     structArgs fs [.str "*"] = .ok sel → sel.Sublist fs :=
   WireP.FrontProofs.structArgs_star_order
 
-/-- otherwise: exactly the named fields, in written order -/
+/-- otherwise: exactly the named fields, in written order; none of them hidden -/
 theorem structArgs_named {fs : List FieldDecl} {args : List FieldArg} {sel : List FieldDecl} :
     allFields args = false → structArgs fs args = .ok sel →
       sel.length = args.length ∧ ∀ (i : Nat) a f, args[i]? = some a → sel[i]? = some f →
-        a = FieldArg.str f.name ∧ f ∈ fs ∧ f.prevented = false ∧ f.name ≠ "_" :=
+        a = FieldArg.str f.name ∧ f ∈ fs ∧ f.prevented = false ∧ f.name ≠ "_" ∧ f.hidden = false :=
   WireP.FrontProofs.structArgs_named
+
+/-- whatever the arguments: no accepted `wire.Struct` sets a field its package cannot name -/
+theorem structArgs_never_hidden {fs : List FieldDecl} {args : List FieldArg} {sel : List FieldDecl} :
+    structArgs fs args = .ok sel → ∀ f ∈ sel, f.hidden = false :=
+  WireP.FrontProofs.structArgs_never_hidden
+
+/-- naming a hidden field is rejected -/
+theorem structArgs_hidden_rejected {fs : List FieldDecl} {args : List FieldArg} {s : String} {f : FieldDecl} :
+    allFields args = false → FieldArg.str s ∈ args → s ≠ "_" → (fs.map (·.name)).Nodup →
+      f ∈ fs → f.name = s → f.prevented = false → f.hidden = true →
+      ∃ e, structArgs fs args = .error e :=
+  WireP.FrontProofs.structArgs_hidden_rejected
+
+/-- when the hidden field is the first argument that fails, it is the one reported -/
+theorem structArgs_hidden_first {fs : List FieldDecl} {pre post : List FieldArg} {s : String} {f : FieldDecl} :
+    allFields (pre ++ .str s :: post) = false → (∀ a ∈ pre, ∃ g, structField fs a = .ok g) → s ≠ "_" →
+      (fs.map (·.name)).Nodup → f ∈ fs → f.name = s → f.prevented = false → f.hidden = true →
+      structArgs fs (pre ++ .str s :: post) = .error (.hidden s) :=
+  WireP.FrontProofs.structArgs_hidden_first
 
 theorem structArgs_rejects {fs : List FieldDecl} {args : List FieldArg} {a : FieldArg} :
     allFields args = false → a ∈ args →
       (a = .other ∨ ∃ s, a = .str s ∧ (s = "_" ∨ (∀ f ∈ fs, f.name ≠ s) ∨
-        ∃ f ∈ fs, f.name = s ∧ f.prevented ∧ (fs.map (·.name)).Nodup)) →
+        (∃ f ∈ fs, f.name = s ∧ f.prevented ∧ (fs.map (·.name)).Nodup) ∨
+        (∃ f ∈ fs, f.name = s ∧ f.hidden ∧ (fs.map (·.name)).Nodup))) →
       ∃ e, structArgs fs args = .error e :=
   WireP.FrontProofs.structArgs_rejects
 
@@ -89,6 +152,10 @@ theorem structArgs_rejects {fs : List FieldDecl} {args : List FieldArg} {a : Fie
 theorem structProviderArgs_ok_iff {fs : List FieldDecl} {args : List FieldArg} {sel : List FieldDecl} :
     structProviderArgs fs args = .ok sel ↔ structArgs fs args = .ok sel ∧ (sel.map (·.ty)).Nodup :=
   WireP.FrontProofs.structProviderArgs_ok_iff
+
+theorem structProviderArgs_never_hidden {fs : List FieldDecl} {args : List FieldArg} {sel : List FieldDecl} :
+    structProviderArgs fs args = .ok sel → ∀ f ∈ sel, f.hidden = false :=
+  WireP.FrontProofs.structProviderArgs_never_hidden
 
 theorem structProviderArgs_types_nodup {fs : List FieldDecl} {args : List FieldArg} {sel : List FieldDecl} :
     structProviderArgs fs args = .ok sel → (sel.map (·.ty)).Nodup :=
@@ -130,41 +197,83 @@ theorem fieldsOfArgs_star_literal {fs : List FieldDecl} :
 
 /-! ## non-vacuity -/
 
-def exFs : List FieldDecl := [⟨"A", 1, false⟩, ⟨"b", 2, true⟩, ⟨"C", 3, false⟩, ⟨"D", 1, false⟩]
+def exFs : List FieldDecl :=
+  [⟨"A", 1, false, false⟩, ⟨"b", 2, true, false⟩, ⟨"C", 3, false, false⟩, ⟨"D", 1, false, false⟩]
 
 example : (exFs.map (·.name)).Nodup := by decide
-example : checkField exFs (.str "C") = .ok ⟨"C", 3, false⟩ := by decide
+example : checkField exFs (.str "C") = .ok ⟨"C", 3, false, false⟩ := by decide
 example : checkField exFs (.str "b") = .error (.prevented "b") := by decide
 example : checkField exFs (.str "B") = .error (.notField "B") := by decide
-example : structArgs exFs [.str "*"] = .ok [⟨"A", 1, false⟩, ⟨"C", 3, false⟩, ⟨"D", 1, false⟩] := by decide
+example : structArgs exFs [.str "*"] =
+    .ok [⟨"A", 1, false, false⟩, ⟨"C", 3, false, false⟩, ⟨"D", 1, false, false⟩] := by decide
 example : allFields [.str "C", .str "A"] = false := by decide
-example : structArgs exFs [.str "C", .str "A"] = .ok [⟨"C", 3, false⟩, ⟨"A", 1, false⟩] := by decide
-example : structProviderArgs exFs [.str "C", .str "A"] = .ok [⟨"C", 3, false⟩, ⟨"A", 1, false⟩] := by decide
-example : structArgs exFs [.str "A", .str "D"] = .ok [⟨"A", 1, false⟩, ⟨"D", 1, false⟩] := by decide
+example : structArgs exFs [.str "C", .str "A"] = .ok [⟨"C", 3, false, false⟩, ⟨"A", 1, false, false⟩] := by decide
+example : structProviderArgs exFs [.str "C", .str "A"] =
+    .ok [⟨"C", 3, false, false⟩, ⟨"A", 1, false, false⟩] := by decide
+example : structArgs exFs [.str "A", .str "D"] = .ok [⟨"A", 1, false, false⟩, ⟨"D", 1, false, false⟩] := by decide
 example : structProviderArgs exFs [.str "A", .str "D"] = .error (.dup 1) := by decide
 example : structProviderArgs exFs [.str "*"] = .error (.dup 1) := by decide
 example : structArgs exFs [.str "A", .other] = .error .notString := by decide
 example : structArgs exFs [.str "A", .str "b"] = .error (.prevented "b") := by decide
 example : structArgs exFs [.str "*", .str "A"] = .error (.notField "*") := by decide
-example : fieldsOfArgs exFs [.str "D", .str "A"] = .ok [⟨"D", 1, false⟩, ⟨"A", 1, false⟩] := by decide
+example : fieldsOfArgs exFs [.str "D", .str "A"] = .ok [⟨"D", 1, false, false⟩, ⟨"A", 1, false, false⟩] := by decide
 example : fieldsOfArgs exFs [.str "A", .str "A", .str "A", .str "A", .str "A"] = .error .tooMany := by decide
 example : fieldsOfArgs exFs [.str "*"] = .error (.notField "*") := by decide
+/-- the `hidden` component defaults to `false` -/
+example : ({ name := "A", ty := 1, prevented := false } : FieldDecl) = ⟨"A", 1, false, false⟩ := rfl
 
 /-- a struct with a blank field, a field whose name merely starts with `_`, and a prevented field -/
-def exBlank : List FieldDecl := [⟨"A", 1, false⟩, ⟨"_", 2, false⟩, ⟨"_x", 3, false⟩, ⟨"b", 4, true⟩]
+def exBlank : List FieldDecl :=
+  [⟨"A", 1, false, false⟩, ⟨"_", 2, false, false⟩, ⟨"_x", 3, false, false⟩, ⟨"b", 4, true, false⟩]
 
 example : (exBlank.map (·.name)).Nodup := by decide
-example : structArgs exBlank [.str "*"] = .ok [⟨"A", 1, false⟩, ⟨"_x", 3, false⟩] := by decide
-example : structProviderArgs exBlank [.str "*"] = .ok [⟨"A", 1, false⟩, ⟨"_x", 3, false⟩] := by decide
+example : structArgs exBlank [.str "*"] = .ok [⟨"A", 1, false, false⟩, ⟨"_x", 3, false, false⟩] := by decide
+example : structProviderArgs exBlank [.str "*"] = .ok [⟨"A", 1, false, false⟩, ⟨"_x", 3, false, false⟩] := by decide
 example : checkField exBlank (.str "_") = .error (.notField "_") := by decide
-example : checkField exBlank (.str "_x") = .ok ⟨"_x", 3, false⟩ := by decide
+example : checkField exBlank (.str "_x") = .ok ⟨"_x", 3, false, false⟩ := by decide
 example : checkField exBlank (.str "b") = .error (.prevented "b") := by decide
 example : structArgs exBlank [.str "A", .str "_"] = .error (.notField "_") := by decide
-example : structArgs exBlank [.str "_x", .str "A"] = .ok [⟨"_x", 3, false⟩, ⟨"A", 1, false⟩] := by decide
+example : structArgs exBlank [.str "_x", .str "A"] = .ok [⟨"_x", 3, false, false⟩, ⟨"A", 1, false, false⟩] := by decide
 example : fieldsOfArgs exBlank [.str "_"] = .error (.notField "_") := by decide
-example : fieldsOfArgs exBlank [.str "_x"] = .ok [⟨"_x", 3, false⟩] := by decide
+example : fieldsOfArgs exBlank [.str "_x"] = .ok [⟨"_x", 3, false, false⟩] := by decide
 /-- two blank fields of one type do not trip the duplicate-type test under `"*"` -/
-example : structProviderArgs [⟨"_", 1, false⟩, ⟨"A", 1, false⟩, ⟨"_", 1, false⟩] [.str "*"] =
-    .ok [⟨"A", 1, false⟩] := by decide
+example : structProviderArgs [⟨"_", 1, false, false⟩, ⟨"A", 1, false, false⟩, ⟨"_", 1, false, false⟩] [.str "*"] =
+    .ok [⟨"A", 1, false, false⟩] := by decide
+
+/-- `type S other.T`: an exported field, a hidden one, a hidden and prevented one, a hidden blank one -/
+def exHidden : List FieldDecl :=
+  [⟨"A", 1, false, false⟩, ⟨"b", 2, false, true⟩, ⟨"c", 3, true, true⟩, ⟨"_", 4, false, true⟩]
+
+example : (exHidden.map (·.name)).Nodup := by decide
+example : structArgs exHidden [.str "*"] = .error (.hidden "b") := by decide
+example : structProviderArgs exHidden [.str "*"] = .error (.hidden "b") := by decide
+example : structArgs exHidden [.str "A"] = .ok [⟨"A", 1, false, false⟩] := by decide
+example : structProviderArgs exHidden [.str "A"] = .ok [⟨"A", 1, false, false⟩] := by decide
+example : structArgs exHidden [.str "A", .str "b"] = .error (.hidden "b") := by decide
+example : structArgs exHidden [.str "b"] = .error (.hidden "b") := by decide
+/-- `prevented` is tested first (inside `checkField`) -/
+example : structArgs exHidden [.str "c"] = .error (.prevented "c") := by decide
+example : structArgs exHidden [.str "_"] = .error (.notField "_") := by decide
+/-- the first failing argument decides -/
+example : structArgs exHidden [.str "b", .str "c"] = .error (.hidden "b") := by decide
+example : structArgs exHidden [.str "c", .str "b"] = .error (.prevented "c") := by decide
+example : structField exHidden (.str "b") = .error (.hidden "b") := by decide
+example : structField exHidden (.str "A") = .ok ⟨"A", 1, false, false⟩ := by decide
+/-- the first hidden field in declaration order is the one reported by `"*"` -/
+example : structArgs [⟨"A", 1, false, false⟩, ⟨"y", 2, false, true⟩, ⟨"x", 3, false, true⟩] [.str "*"] =
+    .error (.hidden "y") := by decide
+/-- a hidden field that is prevented or blank does not disturb `"*"` -/
+example : structArgs [⟨"A", 1, false, false⟩, ⟨"c", 3, true, true⟩, ⟨"_", 4, false, true⟩] [.str "*"] =
+    .ok [⟨"A", 1, false, false⟩] := by decide
+example : structProviderArgs [⟨"A", 1, false, false⟩, ⟨"c", 3, true, true⟩, ⟨"_", 4, false, true⟩] [.str "*"] =
+    .ok [⟨"A", 1, false, false⟩] := by decide
+/-- `wire.FieldsOf` reads the field: `hidden` plays no part -/
+example : checkField exHidden (.str "b") = .ok ⟨"b", 2, false, true⟩ := by decide
+example : fieldsOfArgs exHidden [.str "b"] = .ok [⟨"b", 2, false, true⟩] := by decide
+example : fieldsOfArgs exHidden [.str "b", .str "A"] = .ok [⟨"b", 2, false, true⟩, ⟨"A", 1, false, false⟩] := by decide
+example : fieldsOfArgs exHidden [.str "c"] = .error (.prevented "c") := by decide
+/-- the hypotheses of `structArgs_star_hidden` and `structArgs_hidden_rejected` are satisfiable -/
+example : ∃ f ∈ exHidden, f.prevented = false ∧ f.name ≠ "_" ∧ f.hidden = true :=
+  ⟨⟨"b", 2, false, true⟩, by decide, by decide⟩
 
 end WireP.C12
